@@ -127,6 +127,27 @@ prop( 'C18', [ 'T-RECORD', 'H-PARSE', 'H-FILES', 'H-NATURAL', 'H-OPENER', 'H-PAC
       technique='writer/reader field-table agreement (AST patterns); forward data-flow and path counting over a statement CFG of '
                 'parse_record / reader.open / loader.load; typestate (finite abstract-state sets to a fixpoint) for the strict flag; decision-table evaluation of the file-selection predicates; state-table exhaustiveness' )
 
+prop( 'C04', [ 'F-FRAG', 'F-STATUS', 'D-VALIDATE', 'W-ATTR' ],
+      decides='the form of the fragment arithmetic, by algebra on a linear normal form and by structure, never by evaluating it on sample '
+              'numbers.  F-FRAG (Logix.reply_elements): the byte offset is split into quotient and remainder by the element size '
+              '( off // siz, off - q * siz | off % siz | divmod ), siz = attribute.parser.struct_calcsize, the offset is honoured for the '
+              'Fragmented services only; the first element is advanced by the quotient exactly once; a read fragment carries '
+              'max( R, 1 ) elements where R is a rounding division of ( remainder + budget ) by siz that is proved to be the ceiling: '
+              'for a floor-division of a linear numerator N = X + k*siz + c the identity floor( N / siz ) = k + floor(( X + c ) / siz ) '
+              'gives ceil( X / siz ) for all X >= 0, siz >= 1 iff ( k, c ) = ( 1, -1 ) (other recognised idioms: -( -X // d ), '
+              'math.ceil( X / d ); a different ( k, c ) is reported with an arithmetic witness, an unrecognised form is exit 2); '
+              'budget = max_size or self.MAX_BYTES; end = min( requested end, capacity end ); beg < end asserted on every path to the '
+              'return with no later store.  F-STATUS (Logix.request): the range is the unpacked result of reply_elements for this '
+              'request; a read replies attribute[beg:end]; its status expression, evaluated over the two possible orderings of end and '
+              'endactual (end <= endactual by construction) through the non-STRUCT definitions of its locals, is 0x00 iff '
+              'end == endactual and 0x06 otherwise; a write stores data[context].data into attribute[beg:end] then status 0x00.  '
+              'D-VALIDATE / W-ATTR: the range assertions of reply_elements and "only the write branch stores" (as for C05).',
+      not_decided='the end-to-end reassembly (that the concatenation of the fragments of a driven transfer equals the requested elements) '
+                  'as a statement about values - only the per-fragment clauses above, each a necessary condition of it; the STRUCT/UDT '
+                  'byte-trimming branch (outside the property); client-side offset bookkeeping (the property drives the offsets).',
+      technique='linear normal form + algebraic identity for rounding divisions (idiom table, unrecognised form = undecided); '
+                'two-cell decision table for the completion status; must-pass-through over a statement CFG' )
+
 prop( 'C02', [ 'G-CHUNK', 'G-FRAME', 'P-ACT', 'P-ONE', 'P-CHAIN', 'R-ISO', 'N-RECV', 'R-SENT', 'R-PROGRESS', 'G-PRIMS' ],
       decides='G-CHUNK: in the stream-fed machines (enip_machine incl. enip_header; tnet_machine) no state has both an input edge and a '
               'None edge and no transition predicate inspects the source - i.e. no state\'s successor depends on whether the next byte has '
